@@ -52,6 +52,20 @@ Definition name_from_string (s : list N) : site (list N) :=
 
 (* ---- program counter arithmetic (codegen/program_counter.rs, segment.rs); pcs are usize values ---- *)
 Definition pc_from_i64 (v : Z) : Z := as_usize v.                   (* `* = v`, start = v, pc = v *)
+(* the range check where a value enters the program counter (`* =`, ConfigExtractor::check_address for start / pc) *)
+Definition diag_pc_out_of_range : nat := 8%nat.
+Definition address_check (v : Z) : site Z :=
+  if pc_values_checked && negb ((0 <=? v) && (v <=? pc_limit)) then SDiag diag_pc_out_of_range else SOk (pc_from_i64 v).
+(* `* = v` with the current segment's target offset (None: no current segment): the new pc, if one is set *)
+Definition set_pc_site (v : Z) (offset : option Z) : site (option Z) :=
+  match address_check v with
+  | SDiag d => SDiag d
+  | SPanic => SPanic
+  | SOk pc => match offset with
+              | None => SOk None
+              | Some off => if relocated_pc_checked && (v + off <? 0) then SDiag diag_pc_out_of_range else SOk (Some pc)
+              end
+  end.
 Definition pc_add (pc n : Z) : site Z :=                             (* ProgramCounter + usize *)
   if pc_add_checked then SOk ((pc + n) mod two64) else if two64 <=? pc + n then SPanic else SOk (pc + n).
 (* branch arm: `(self.try_current_target_pc().unwrap_or_else(|| target_pc.into()) + 2)`: in the segment-less pass 0 the
@@ -61,7 +75,8 @@ Definition branch_base (cur : option Z) (target : Z) : site Z :=
 (* `let mut offset = target_pc - cur_pc;` with cur_pc = (base + 2).as_i64() *)
 Definition branch_offset (cur : option Z) (target : Z) : site Z :=
   match branch_base cur target with
-  | SOk b => let o := target - usize_as_i64 b in if in_i64 o then SOk o else SPanic
+  | SOk b => let o := target - usize_as_i64 b in
+             if in_i64 o then SOk o else if branch_sub_checked then SOk (wrap64 o) else SPanic
   | SDiag d => SDiag d
   | SPanic => SPanic
   end.
@@ -113,20 +128,40 @@ Definition stmt_data (en : env) (pc : Z) (size : Z) (e : expr) : stmt_result :=
   | SOk (Some _) => match segment_emit pc size with SPanic => RPanic | SDiag d => RDiag d | SOk p => REmitted p end
   end.
 
-(* `* = <expr>` followed by one emitted byte: set_pc, then target_pc (for the source map) and emit *)
+(* target_offset of a segment, when the subtraction does not overflow *)
+Definition seg_offset (initial target : Z) : Z := usize_as_i64 target - usize_as_i64 initial.
+
+(* one emitted byte at pc in a segment (initial, target): target_pc and SourceMap::add first, then Segment::emit *)
+Definition emit_one (pc initial target : Z) : stmt_result :=
+  match target_pc pc initial target with
+  | SPanic => RPanic | SDiag d => RDiag d
+  | SOk t =>
+      match source_map_add t 1 with
+      | SPanic => RPanic | SDiag d => RDiag d
+      | SOk _ => match segment_emit pc 1 with SPanic => RPanic | SDiag d => RDiag d | SOk p => REmitted p end
+      end
+  end.
+
+(* `* = <expr>` followed by one emitted byte, in a segment with the given (already accepted) start and pc option *)
 Definition stmt_pc_then_byte (en : env) (initial target : Z) (e : expr) : stmt_result :=
   match eval_i64 en e with
   | SPanic => RPanic | SDiag d => RDiag d | SOk None => RNothing
   | SOk (Some v) =>
-      let pc := pc_from_i64 v in
-      match target_pc pc initial target with
+      match set_pc_site v (Some (seg_offset initial target)) with
       | SPanic => RPanic | SDiag d => RDiag d
-      | SOk t =>
-          match source_map_add t 1 with
-          | SPanic => RPanic | SDiag d => RDiag d
-          | SOk _ => match segment_emit pc 1 with SPanic => RPanic | SDiag d => RDiag d | SOk p => REmitted p end
-          end
+      | SOk None => RNothing
+      | SOk (Some pc) => emit_one pc initial target
       end
+  end.
+
+(* `.define segment { start = s pc = t }` followed by one emitted byte *)
+Definition stmt_segment_then_byte (s t : Z) : stmt_result :=
+  match address_check s with
+  | SPanic => RPanic | SDiag d => RDiag d
+  | SOk initial => match address_check t with
+                   | SPanic => RPanic | SDiag d => RDiag d
+                   | SOk target => emit_one initial initial target
+                   end
   end.
 
 (* ---- recursion depth of emit_token through imports and macro invocations ----
@@ -176,11 +211,10 @@ Definition bank_padding (size len : Z) (has_fill : bool) : site Z :=
 (* ---- Known_* classes: the inputs on which the current source still violates C06 ---- *)
 Definition huge_loop_threshold : Z := 1048576.
 Definition Known_loop_count_huge (count : Z) : bool := huge_loop_threshold <? count.
-Definition pc_insane (pc : Z) : bool := negb ((0 <=? pc) && (pc <? 4611686018427387904)).   (* outside 0..2^62 *)
-(* pc of the current segment (after `* =`), its start (initial_pc) and its `pc` option (target_address), as usize values:
-   one of them is outside 0..2^62, or the relocated pc  pc + (target - initial)  is negative *)
-Definition Known_pc_out_of_range (pc initial target : Z) : bool :=
-  pc_insane pc || pc_insane initial || pc_insane target || (pc + (target - initial) <? 0).
+(* the invariant the range checks establish for the pc of a segment (initial, target): inside 0..pc_limit, and the
+   relocated pc is not negative *)
+Definition pc_ok (pc initial target : Z) : Prop :=
+  0 <= pc <= pc_limit /\ 0 <= initial <= pc_limit /\ 0 <= target <= pc_limit /\ 0 <= pc + (target - initial).
 Definition Known_bank_size_huge (size : Z) : bool := 1073741824 <? size.        (* more than 2^30 bytes of padding in memory *)
 Definition Known_macro_recursion (g : list (list nat)) : bool := cyclic_from g 0%nat.
 (* brace / parenthesis nesting of a text: recursion depth of the recursive-descent parser, codegen and formatter *)
